@@ -337,8 +337,11 @@ impl Cell {
                 centre[o] += rng.range(-1.0, 1.0) * lim;
             }
         }
-        let pose = f.mul(&Fr::new(I3, centre));
-        let near = RMesh::boxm(ho, [0.0; 3], n);
+        // a third of the obstacle meshes is modelled away from its own local origin (the pose compensates,
+        // so the world placement is the designed one): the pose rotation then acts on a non-zero centre
+        let o: [f64; 3] = if rng.bool(0.33) { [rng.range(-0.6, 0.6), rng.range(-0.6, 0.6), rng.range(-0.6, 0.6)] } else { [0.0; 3] };
+        let pose = f.mul(&Fr::new(I3, sub(centre, o)));
+        let near = RMesh::boxm(ho, o, n);
         // a fifth of the obstacles are meshes of two disconnected parts: a far part listed first, then
         // the designed near part (the far part is 4..6 m away along the link's k axis, outside the cell)
         if rng.bool(0.2) {
@@ -357,9 +360,10 @@ impl Cell {
         let reach = self.scale;
         let ho = [rng.range(0.03, 0.3), rng.range(0.03, 0.3), rng.range(0.03, 0.3)];
         let p = [rng.range(-1.0, 1.0) * reach * 0.8, rng.range(-1.0, 1.0) * reach * 0.8, rng.range(-0.2, 1.0) * reach * 0.8];
-        let pose = self.base_tf.mul(&Fr::new(random_rotation(rng), p));
+        let o: [f64; 3] = if rng.bool(0.33) { [rng.range(-0.6, 0.6), rng.range(-0.6, 0.6), rng.range(-0.6, 0.6)] } else { [0.0; 3] };
+        let pose = self.base_tf.mul(&Fr::new(random_rotation(rng), p)).mul(&Fr::new(I3, [-o[0], -o[1], -o[2]]));
         let n = if self.fine { rng.usize(4) } else { 0 };
-        self.env.push((RMesh::boxm(ho, [0.0; 3], n), pose));
+        self.env.push((RMesh::boxm(ho, o, n), pose));
         self.env.len() - 1
     }
 
